@@ -358,14 +358,14 @@ class DataFormat(object):
                 )
             self.item_delimiter = item_delimiter
         elif name == KEY_LINE_DELIMITER:
-            try:
-                self.line_delimiter = _TEXT_TO_LINE_DELIMITER_MAP[value.lower()]
-            except KeyError:
+            line_delimiter_text = value.lower()
+            if line_delimiter_text not in self._VALID_LINE_DELIMITER_TEXTS:
                 raise errors.InterfaceError(
                     "line delimiter %s must be changed to one of: %s"
                     % (_compat.text_repr(value), _tools.human_readable_list(self._VALID_LINE_DELIMITER_TEXTS)),
                     location,
                 )
+            self.line_delimiter = _TEXT_TO_LINE_DELIMITER_MAP[line_delimiter_text]
         elif name == KEY_QUOTE_CHARACTER:
             self.quote_character = DataFormat._validated_choice(
                 KEY_QUOTE_CHARACTER, value, _VALID_QUOTE_CHARACTERS, location
